@@ -224,10 +224,10 @@ func (t *tables) lookup(a absString, dn string) (d, impl decision, err error) {
 type observed struct {
 	want     decision // the specification's (property layer) decision, filled by checkDecode
 	panicked string
-	d       decision
-	addr    address.Address
-	payload []byte
-	reenc   string
+	d        decision
+	addr     address.Address
+	payload  []byte
+	reenc    string
 }
 
 func kindOfAddress(a address.Address) string {
